@@ -111,6 +111,21 @@ CHECKS = {
         "Alphabet- and depth-bounded.",
         "DESIGN.md 4 C12",
     ),
+    "C18": (
+        "model_checking",
+        "explicit-state BFS near the ceilings of real linear / log8 / log16 / heavy-hitter sketches "
+        "with a monotonicity + absorbing-ceiling edge predicate, plus complete enumeration of the "
+        "(max_count x num_reserved) constructor grid",
+        "Histories whose multiplicities land within +-3 of the ceiling and beyond (linear, heavy "
+        "hitters), all-advance draws reaching counter 255 (log8), start states written 0-3 below "
+        "65535 (log16), merges included: on every transition no estimate is lowered, a key at its "
+        "ceiling stays there, a collision-free key is counted exactly min(true,2^32-1). For log8 every "
+        "num_reserved 0..254 x 18 max_counts, for log16 a stride (quick) / every num_reserved "
+        "(thorough): the constructor raises ValueError or the ceiling decodes to max_count (1e-6).",
+        "Depth- and alphabet-bounded BFS; constructor grid complete for log8, complete for log16 only "
+        "in the thorough tier. Tolerance 1e-6 relative = the repository's own pytest.approx.",
+        "DESIGN.md 4 C18",
+    ),
     "C11": (
         "model_checking",
         "exhaustive enumeration of a finite input domain (all byte values x positions x lengths, "
@@ -194,7 +209,7 @@ def build():
         "not_applicable": na,
         "notes": "All commands run with cwd=/verif and import sketchnu from /repo's working tree "
         "(numba recompiles at import; no on-disk cache). Exit 2 = machinery error. Fix commits in "
-        "/repo: 73a277b (F1), bcebe9a (F2), 55a3cfd (F4); F3 is a known finding "
+        "/repo: 73a277b (F1), bcebe9a (F2), a6d013d (F4), 5a59a74 (F5); F3 is a known finding "
         "(known_findings.json).",
     }
     if not na:
